@@ -536,7 +536,23 @@ func (s *Stage) Recover() {
 					validate = append(validate, cmp)
 				}
 			} else if _, err = os.Stat(base); os.IsNotExist(err) {
-				// Not found
+				// Not found.  If we went down in the middle of putting the
+				// (validated and logged) file away, it is sitting in the
+				// target directory under its intermediate name with nothing
+				// left to finish the job, so do that here.
+				targetName := cmp.Name
+				if cmp.Renamed != "" {
+					targetName = cmp.Renamed
+				}
+				targetPath := filepath.Join(s.targetDir, targetName)
+				if _, err = os.Stat(targetPath + fileutil.LockExt); err == nil {
+					if err = os.Rename(targetPath+fileutil.LockExt, targetPath); err != nil {
+						s.logError("Failed to finish interrupted move:",
+							targetPath, err.Error())
+						return nil
+					}
+					s.logInfo("Finished interrupted move:", targetPath)
+				}
 				if err = os.Remove(path); err != nil {
 					s.logError("Failed to remove orphaned companion:",
 						path, err.Error())
